@@ -356,6 +356,57 @@ func ruleNONCE(c *Checker, rule string, enc, dec, initKey, rot *ssa.Function, fN
 			c.decide(okk, rule, key, instrPos(call), "nonce buffer filled from cipherState.nonce, cipher is cipherState.cipher", "the AEAD nonce is not the implicit counter cipherState.nonce (or the cipher is not the state's cipher)")
 		})
 	}
+	// ... and nothing leaves Encrypt/Decrypt that is not the AEAD's output: every return has passed
+	// Seal/Open and hands out its result (an "unkeyed cipher passes the bytes through" leg puts
+	// plaintext on the wire, or accepts unauthenticated bytes)
+	for _, pr := range []struct {
+		fn *ssa.Function
+		m  string
+	}{{enc, "Seal"}, {dec, "Open"}} {
+		if pr.fn == nil {
+			continue
+		}
+		var aead []*ssa.Call
+		allInstrs(pr.fn, func(in ssa.Instruction) {
+			if call, ok := in.(*ssa.Call); ok && call.Common().IsInvoke() && call.Common().Method.Name() == pr.m {
+				aead = append(aead, call)
+			}
+		})
+		bad := ""
+		allInstrs(pr.fn, func(in ssa.Instruction) {
+			ret, ok := in.(*ssa.Return)
+			if !ok || ret.Block().Comment == "recover" {
+				return
+			}
+			if pathFromEntry(pr.fn, ret, func(x ssa.Instruction) bool {
+				for _, a := range aead {
+					if x == ssa.Instruction(a) {
+						return true
+					}
+				}
+				return false
+			}) {
+				bad = "return at " + w.pos(instrPos(ret)) + " reachable without " + pr.m
+				return
+			}
+			for _, v := range expandValues(ret.Results[0]) {
+				okv := isNilConst(v)
+				for _, a := range aead {
+					if v == ssa.Value(a) {
+						okv = true
+					}
+					if ex, isEx := v.(*ssa.Extract); isEx && ex.Tuple == ssa.Value(a) && ex.Index == 0 {
+						okv = true
+					}
+				}
+				if !okv {
+					bad = "return at " + w.pos(instrPos(ret)) + " hands out " + w.canonFB(v)
+				}
+			}
+		})
+		c.decide(bad == "" && len(aead) == 1, rule, "aead-result|"+fnName(pr.fn), pr.fn.Pos(), "every return has passed "+pr.m+" and returns its output",
+			fnName(pr.fn)+" can return something that did not go through the AEAD ("+bad+"): plaintext on the wire / unauthenticated bytes accepted")
+	}
 	// rotateKey
 	okHK, okInit := false, false
 	allInstrs(rot, func(in ssa.Instruction) {
